@@ -41,6 +41,8 @@ def q__Generator__inverse(self, a):
 # pycoin/ecdsa/Generator.py :: Generator.points_for_x
 def q__Generator__points_for_x(self, x):
     p = self._p
+    if not 0 <= x < p:
+        raise ValueError()
     alpha = (pow(x, 3, p) + self._a * x + self._b) % p
     y0 = self.modular_sqrt(alpha)
     if y0 == 0:
@@ -54,6 +56,9 @@ def q__Generator__points_for_x(self, x):
 # pycoin/ecdsa/Generator.py :: Generator.possible_public_pairs_for_signature
 def q__Generator__possible_public_pairs_for_signature(self, value, signature, y_parity=None):
     r, s = signature
+    order = self._order
+    if value == 0 or s < 1 or s >= order or (r % order == 0):
+        return []
     try:
         points = self.points_for_x(r)
     except ValueError:
